@@ -88,8 +88,10 @@ def pair_list(node, kf=cstr, vf=cstr):
 def ordered_dict(node):
     ok = (isinstance(node, ast.Call) and isinstance(node.func, ast.Attribute) and node.func.attr == "OrderedDict"
           and len(node.args) == 1 and not node.keywords)
+    if isinstance(node, ast.Dict):   # a plain dict literal keeps insertion order as well
+        return dict_items(node)
     if not ok:
-        die("expected collections.OrderedDict([...])")
+        die("expected collections.OrderedDict([...]) or a dict literal")
     return pair_list(node.args[0])
 
 
@@ -125,13 +127,14 @@ def emit_str(out, name, s, doc=""):
 
 
 # ---------------------------------------------------------------- formatter shapes
+# kind -> the source shapes that denote it (equivalent spellings of the same formatter are accepted)
 FMT_SHAPES = {
-    "FmtStr": "str(x)",
-    "FmtInt": "str(int(x))",
-    "FmtLast2": "str(int(str(x)[-2:]))",
-    "FmtLast2Pad": "f'{int(str(x)[-2:]):02}'",
-    "FmtPad 2": "f'{int(x):02}'",
-    "FmtPad 3": "f'{int(x):03}'",
+    "FmtStr": ["str(x)", "f'{x}'", "'%s' % x", "'{}'.format(x)"],
+    "FmtInt": ["str(int(x))", "f'{int(x)}'", "'%d' % int(x)", "'{}'.format(int(x))"],
+    "FmtLast2": ["str(int(str(x)[-2:]))", "f'{int(str(x)[-2:])}'", "'%d' % int(str(x)[-2:])"],
+    "FmtLast2Pad": ["f'{int(str(x)[-2:]):02}'", "'%02d' % int(str(x)[-2:])", "'{:02}'.format(int(str(x)[-2:]))", "str(int(str(x)[-2:])).zfill(2)"],
+    "FmtPad 2": ["f'{int(x):02}'", "'%02d' % int(x)", "'{:02}'.format(int(x))", "str(int(x)).zfill(2)", "f'{int(x):02d}'", "'{:02d}'.format(int(x))"],
+    "FmtPad 3": ["f'{int(x):03}'", "'%03d' % int(x)", "'{:03}'.format(int(x))", "str(int(x)).zfill(3)", "f'{int(x):03d}'", "'{:03d}'.format(int(x))"],
 }
 
 
@@ -150,10 +153,10 @@ def fmt_kind(mod, fname):
     if len(body) != 1 or not isinstance(body[0], ast.Return):
         die("formatter %s: body is not a single return" % fname)
     got = norm_expr(body[0].value, fn.args.args[0].arg)
-    for kind, src in FMT_SHAPES.items():
-        want = ast.dump(ast.parse(src, mode="eval").body)
-        if got == want:
-            return kind
+    for kind, srcs in FMT_SHAPES.items():
+        for src in srcs:
+            if got == ast.dump(ast.parse(src, mode="eval").body):
+                return kind
     die("formatter %s: unknown shape %s" % (fname, ast.unparse(body[0].value)))
 
 
